@@ -38,16 +38,17 @@ def destructures(fn: ast.AST) -> bool:
 
 
 class Pairing:
-    def __init__(self, which: str, paired_labels: Set[str], node: ast.AST, how: str):
+    def __init__(self, which: str, paired_labels: Set[str], node: ast.AST, how: str, pad_labels: Optional[Set[str]] = None):
         self.which = which  # defaults | kw_defaults
         self.labels = paired_labels
         self.node = node
         self.how = how
+        self.pad_labels = pad_labels  # padded idiom: the list whose length decides how many None are put in front
 
     @property
     def ok(self) -> bool:
         allowed = set(DEFAULT_ALIGNMENT[self.which])
-        return self.labels == allowed
+        return self.labels == allowed and (self.pad_labels is None or self.pad_labels == allowed)
 
 
 def pairings(fn: ast.AST) -> List[Pairing]:
@@ -71,10 +72,38 @@ def pairings(fn: ast.AST) -> List[Pairing]:
         return s
 
     ENV = [env]
+    padded: Dict[str, Tuple[str, Set[str]]] = {}
+
+    def pad_of(v: ast.AST) -> Optional[Tuple[str, Set[str]]]:
+        """[None] * (len(X) - len(D)) + D   ->  (which, labels(X))"""
+        if not (isinstance(v, ast.BinOp) and isinstance(v.op, ast.Add)):
+            return None
+        l = v.left
+        if not (isinstance(l, ast.BinOp) and isinstance(l.op, ast.Mult)):
+            return None
+        lst, cnt = (l.left, l.right) if isinstance(l.left, ast.List) else (l.right, l.left)
+        if not (isinstance(lst, ast.List) and len(lst.elts) == 1 and isinstance(lst.elts[0], ast.Constant) and lst.elts[0].value is None):
+            return None
+        if not (isinstance(cnt, ast.BinOp) and isinstance(cnt.op, ast.Sub)):
+            return None
+        lens = [c for c in (cnt.left, cnt.right) if isinstance(c, ast.Call) and call_name(c) == "len" and c.args]
+        if len(lens) != 2:
+            return None
+        which = next((w for w in ("defaults", "kw_defaults") if w in labels(v.right)), None)
+        if which is None:
+            return None
+        return which, labels(lens[0].args[0])
 
     def see_expr(e: ast.AST) -> None:
         for x in ast.walk(e):
+            if isinstance(x, ast.Call) and call_name(x) == "zip" and len(x.args) == 2:
+                for i, a in enumerate(x.args):
+                    if isinstance(a, ast.Name) and a.id in padded:
+                        which, padl = padded[a.id]
+                        out.append(Pairing(which, labels(x.args[1 - i]) - {which}, x, "padded-zip", pad_labels=padl))
             if isinstance(x, ast.Call) and call_name(x) == "zip" and len(x.args) >= 2:
+                if any(isinstance(a, ast.Name) and a.id in padded for a in x.args):
+                    continue
                 ls = [labels(a) for a in x.args]
                 for i, l in enumerate(ls):
                     for which in ("defaults", "kw_defaults"):
@@ -100,8 +129,14 @@ def pairings(fn: ast.AST) -> List[Pairing]:
                 see_expr(st.value)
                 # padded defaults:  [None] * (len(args) - len(defaults)) + list(defaults)  zipped later with args
                 lab = labels(st.value)
+                pd = pad_of(st.value)
                 for t in st.targets:
                     assign(t, lab, False)
+                    if isinstance(t, ast.Name):
+                        if pd is not None:
+                            padded[t.id] = pd
+                        else:
+                            padded.pop(t.id, None)
             elif isinstance(st, ast.AugAssign):
                 see_expr(st.value)
                 assign(st.target, labels(st.value), True)
